@@ -266,6 +266,8 @@ def parse_contracts(path):
         else:
             if body:
                 raise SyntaxError('%s:%d: unexpected statement in contract body' % (path, body[0].lineno))
+        if qual in contracts:
+            raise SyntaxError('%s:%d: contract for %s defined twice' % (path, node.lineno, qual))
         contracts[qual] = c
     return contracts, classes, ghosts
 
